@@ -37,9 +37,14 @@ CONSTRAINT_SETS = {
     "two-sided": {"var_range": {R1: [0.2, 1.5]}},
     "one-sided+gauss": {"var_range": {R1: [0.1, None], R2: [None, 2.5]}, "gauss_constr": {I1: [0.3, 0.5]}},
     "all": {"fix_var": {I2: -0.4}, "var_range": {R1: [0.2, 1.5], R2: [0.1, None]}, "gauss_constr": {I1: [0.3, 0.5]}},
+    # a bound end at exactly zero, with a Gaussian constraint pulling the parameter beyond it
+    "zero-bound": {"var_range": {I1: [0, 3], R1: [0, None]}, "gauss_constr": {I1: [-1.0, 0.2]}},
     # Hessian-based minimisers always run to convergence (fit_newton_cg has no iteration limit): few free parameters
     "small": {"fix_var": {I2: -0.4, R2: 0.8}, "var_range": {R1: [0.2, 1.5]}, "gauss_constr": {I1: [0.3, 0.5]}},
     "small-plain": {"fix_var": {I2: -0.4, R2: 0.8, I1: 0.2}},
+    # resonance parameters floated by the particle card: mass only / width only (bounded by m_min, m_max)
+    "float-mass": {"fix_var": {I2: -0.4, R2: 0.8}, "_particle": {"R_BD": {"float": ["m"], "m_min": 2.3, "m_max": 2.6}}},
+    "float-width": {"fix_var": {I2: -0.4, R2: 0.8}, "_particle": {"R_BD": {"float": ["g"], "g_min": 0.05, "g_max": 0.6}}},
 }
 NEWTON = ("Newton-CG", "trust-krylov", "trust-ncg", "trust-exact", "Newton-CG-p", "trust-krylov-p", "trust-ncg-p", "iminuit")
 
@@ -55,16 +60,32 @@ def cfg_text(has_bounds, max_eval=3, max_fits=2, invs=INVS, code=None):
 
 
 def build(cset, seed, n_data, n_phsp):
-    d = models.toy_dict(extra={"constrains": dict({"particle": None, "decay": None}, **CONSTRAINT_SETS[cset])})
+    cs = dict(CONSTRAINT_SETS[cset])
+    pextra = cs.pop("_particle", None)
+    d = models.toy_dict(extra={"constrains": dict({"particle": None, "decay": None}, **cs)})
+    if pextra:
+        for k, v in pextra.items():
+            d["particle"][k].update(v)
     config = models.make_config(d)
     amp = config.get_amplitude()
     rng = np.random.RandomState(seed)
     start = {}
+    ranges = dict(cs.get("var_range") or {})
     for n in amp.vm.trainable_vars:
+        if n.endswith("_mass") or n.endswith("_width"):
+            continue  # resonance parameters start at their configured values
         if n.endswith("r"):
             start[n] = float(rng.uniform(0.5, 1.2))
         else:
             start[n] = float(rng.uniform(-1.0, 1.0))
+        if n in ranges:  # a fit starts inside the declared range
+            lo, hi = ranges[n]
+            lo = -1e9 if lo is None else lo
+            hi = 1e9 if hi is None else hi
+            if not (lo < start[n] < hi):
+                start[n] = float(min(max(start[n], lo), hi)) * 0.5 + 0.5 * (0.5 * (max(lo, start[n] - 1) + min(hi, start[n] + 1)))
+            if not (lo < start[n] < hi):
+                start[n] = 0.5 * (max(lo, -2.0) + min(hi, 2.0))
     amp.set_params(start)
     return d, config, amp
 
@@ -110,7 +131,13 @@ def observe(ctx, key, config, amp, fcn, res, before, nll_start, cset, dct, data,
     if bad:
         probs.append(("result_vs_model", {"names": bad[:4], "result": [listed[k] for k in bad[:4]], "model": [now.get(k) for k in bad[:4]]}))
     # (f) bounded parameters inside their bounds (checked before any further evaluation moves the model)
-    for n, (lo, hi) in (CONSTRAINT_SETS[cset].get("var_range") or {}).items():
+    ranges = dict(CONSTRAINT_SETS[cset].get("var_range") or {})
+    for pn, pv in (CONSTRAINT_SETS[cset].get("_particle") or {}).items():
+        if "m" in pv.get("float", []):
+            ranges[pn + "_mass"] = [pv.get("m_min"), pv.get("m_max")]
+        if "g" in pv.get("float", []):
+            ranges[pn + "_width"] = [pv.get("g_min"), pv.get("g_max")]
+    for n, (lo, hi) in ranges.items():
         v = now[n]
         if (lo is not None and v < lo - 1e-9) or (hi is not None and v > hi + 1e-9):
             probs.append(("outside_bounds", {"name": n, "value": v, "bounds": [lo, hi]}))
@@ -190,7 +217,8 @@ def run(ctx):
         singles = ["BFGS", "CG", "L-BFGS-B", "Newton-CG-p"]
         pairs = [("Newton-CG-p", "BFGS"), ("BFGS", "L-BFGS-B")]
         stops = {"BFGS": ["converged", "maxiter", "large"], "CG": ["maxiter"], "L-BFGS-B": ["maxiter"], "Newton-CG-p": ["converged"], "trust-ncg-p": ["converged"]}
-        csets = {"BFGS": ["all", "fixed+tied"], "CG": ["two-sided"], "L-BFGS-B": ["all"], "Newton-CG-p": ["small"], "trust-ncg-p": ["small"]}
+        skip = {("BFGS", "maxiter", "zero-bound"), ("BFGS", "large", "zero-bound"), ("BFGS", "large", "float-mass"), ("BFGS", "converged", "float-mass"), ("BFGS", "large", "fixed+tied")}
+        csets = {"BFGS": ["all", "fixed+tied", "zero-bound", "float-mass"], "CG": ["two-sided", "float-width"], "L-BFGS-B": ["all"], "Newton-CG-p": ["small"]}
     else:
         singles = ["BFGS", "CG", "Nelder-Mead", "L-BFGS-B", "Newton-CG", "trust-krylov", "trust-ncg", "trust-exact", "Newton-CG-p", "trust-krylov-p", "trust-ncg-p", "iminuit"]
         pairs = [("trust-ncg-p", "BFGS"), ("BFGS", "L-BFGS-B"), ("Newton-CG-p", "iminuit"), ("L-BFGS-B", "CG"), ("trust-ncg-p", "trust-ncg-p"), ("BFGS", "BFGS")]
@@ -206,6 +234,8 @@ def run(ctx):
     for m in singles:
         for s in stops[m]:
             for cs in csets[m]:
+                if quick and (m, s, cs) in skip:
+                    continue
                 scenarios.append((("none", m, s), cs))
     for a, b in pairs:
         scenarios.append(((a, b, "converged" if b in NEWTON else "maxiter"), "small"))
@@ -214,7 +244,7 @@ def run(ctx):
         scenarios = [sc for sc in scenarios if only in sc[0]]
     nrun = 0
     for (prev, meth, stop), cset in scenarios:
-        hb = bool(CONSTRAINT_SETS[cset].get("var_range"))
+        hb = bool(CONSTRAINT_SETS[cset].get("var_range")) or bool(CONSTRAINT_SETS[cset].get("_particle"))
         if (prev if prev != "none" else "none", meth, stop, hb) not in reach and ("none", meth, stop, hb) not in reach:
             raise tlc.MachineryError("scenario %s/%s/%s not reachable in the model" % (prev, meth, stop))
         key = "fit:%s%s:%s:%s" % (prev + ">" if prev != "none" else "", meth, stop, cset)
